@@ -78,7 +78,13 @@ Definition eids (l : list ev) : list Z := map ev_id l.
    model program holds references to (cancel_event) *)
 Definition dom (s : sim) : list Z := eids (pend s) ++ eids (created s).
 
-Record CoreSim (f : Z -> Z) (s t : sim) : Prop := mkCoreSim {
+(* X: further ids that can still be compared although no pending or referenced
+   event carries them at the moment -- the ids of SimEvent objects that were
+   built before and may be handed to schedule_event(event) later; X': the ids
+   the same objects have in the other run *)
+Definition domx (X : list Z) (s : sim) : list Z := dom s ++ X.
+
+Record CoreSim (X X' : list Z) (f : Z -> Z) (s t : sim) : Prop := mkCoreSim {
   cs_clock : clock t = clock s;
   cs_rs : rs t = rs s;
   cs_ps : ps t = ps s;
@@ -87,15 +93,18 @@ Record CoreSim (f : Z -> Z) (s t : sim) : Prop := mkCoreSim {
   cs_rep : rep t = rep s;
   cs_pend : pend t = map (ren f) (pend s);
   cs_created : created t = map (ren f) (created s);
-  cs_lo : forall a, In a (dom s) -> a < nid s;
-  cs_hi : forall a, In a (dom s) -> f a < nid t;
-  cs_mono : forall a b, In a (dom s) -> In b (dom s) -> a < b -> f a < f b
+  cs_x : map f X = X';
+  cs_lo : forall a, In a (domx X s) -> a < nid s;
+  cs_hi : forall a, In a (domx X s) -> f a < nid t;
+  cs_mono : forall a b, In a (domx X s) -> In b (domx X s) -> a < b -> f a < f b
 }.
 
 (* the run bound is dead between runs (every accepted start writes it) and is
    therefore not part of the relation; it is carried separately through a run *)
-Definition IdSim (bs bt : logs) (s t : sim) : Prop :=
-  (exists f, CoreSim f s t) /\ LogsRel bs bt s t.
+Definition IdSimX (X X' : list Z) (bs bt : logs) (s t : sim) : Prop :=
+  (exists f, CoreSim X X' f s t) /\ LogsRel bs bt s t.
+
+Definition IdSim (bs bt : logs) (s t : sim) : Prop := IdSimX [] [] bs bt s t.
 
 Definition SameBound (s t : sim) : Prop := bound t = bound s /\ incl t = incl s.
 
